@@ -6,6 +6,6 @@ CONSTANTS
   Star = TRUE
   FewPerms = {{}, {3, 12}}
   ManyPerms <- Representatives
-  Corpus = {"testWithText.pdf", "annotTest.pdf"}
+  Corpus = {"rich_objstm", "testWithText.pdf", "annotTest.pdf"}
   Emit = TRUE
 INVARIANTS RoundTrip EmitCase
